@@ -131,7 +131,7 @@ func scripted() []script {
 			{K: "ObserveJump", C: 1, X: 2},
 			{K: "SendToFx", C: 1, T: 0, A: 101, X: 77},
 		}},
-		{"inbound bridge call fails: refund drawn from the refund address", sp, []Op{
+		{"inbound bridge call fails: the deposit is handed to the refund address (regression of fixed C04-3)", sp, []Op{
 			{K: "BridgeCallIn", C: 1, A: cBad, B: 100, To: cBad, Toks: [][2]int64{{0, 500}}, Flag: false},
 		}},
 	}
